@@ -100,6 +100,8 @@ func (e *Enc) external(cur *cursor, v ssa.Value, callee *ssa.Function, args []Va
 	case "strings.ToUpper":
 		set(fmt.Sprintf("(s_upper %s)", at(0)))
 	case "strings.Repeat":
+		// strings.Repeat panics on a negative count
+		e.safety(cur, "repeatneg", fmt.Sprintf("(<= 0 %s)", at(1)), v.Pos(), "strings.Repeat: negative Repeat count")
 		set(fmt.Sprintf("(s_repeat %s %s)", at(0), at(1)))
 	case "strconv.ParseFloat":
 		errT := e.fresh("pferr", "Any")
